@@ -122,6 +122,17 @@ theorem render_is_tree (s : MsgState) (e : Entropy)
       planBytes (writeMsg s e false).1.acts = (stageHeaders (defaultHeaders s e) {}).out ++ top.ser :=
   writeMsg_refines s e hp hl
 
+/-- The same for EVERY message without deleted parts (no S/MIME), including those that need no
+    multipart layer: header fields, then the tree - and a message without layers is its single leaf
+    at the top level (`Ent.serTop`: header fields folded by writeHeader, empty line, encoded body) or
+    has no content at all. -/
+theorem render_is_tree_all (s : MsgState) (e : Entropy)
+    (hp : ∀ p ∈ s.parts, p.deleted = false ∧ p.smime = false) :
+    planBytes (writeMsg s e false).1.acts = (stageHeaders (defaultHeaders s e) {}).out ++
+      ((contentTree (defaultHeaders s e) (writeMsg s e false).2.bMixed (writeMsg s e false).2.bRelated (writeMsg s e false).2.bAlt
+        (writeMsg s e false).2.embeds (writeMsg s e false).2.attachments).map Ent.serTop).flatten :=
+  writeMsg_refines_all s e hp
+
 /-- ... and whatever layers are present, the leaves of that tree are, in order: one per body part, one
     per embed, one per attachment. -/
 theorem tree_leaves (s : MsgState) (bM bR bA : Bytes) (embeds attachments : List FileM) :
